@@ -41,6 +41,21 @@ CLAIMED = {
    design="7/C17",
    note="Trusted: Coq kernel, translator, harness; struct IEEE unpacking and text decoding are CPython's (latin1 = identity in the runs).",
    technique="Coq proof (round-trip by induction over the parameter list, bitmap lemma) + translator facts + vm_compute correspondence"),
+ "C14": dict(
+   text="Coq theorems over Model/Vars.v instantiated with the regenerated schema (SYSTEM_VARIABLES), validators, character-set tables "
+        "and transaction characteristics: read-your-writes with the coercion of the variable's type and nothing else moving; DEFAULT / "
+        "NULL restore the default; unknown names and read-only variables are refused; NO sequence of client statements (SET in any "
+        "form, hints, reads) changes a read-only variable (induction over the op list); every stored value is the default or a valid "
+        "value of its type after any history; a SET_VAR hint - any names, values, nesting, outcome of the statement, including the "
+        "library's double activation of the hint middleware - leaves every variable reading as before (c14_hint_is_scoped, for every "
+        "reachable store); after any history the time zone parses and the connection's character sets exist; accepted time zones are "
+        "offsets below one day. Tie: programs in every accepted spelling through the real Session with every variable read back "
+        "after every statement, compared with the model; NOW()/CURDATE()/CURTIME() under a frozen clock; handshake version.",
+   design="7/C14",
+   note="Trusted: Coq kernel, translator, harness; SQL text -> statement structure is sqlglot + setitem_kind/expression_to_value "
+        "(exercised by every spelling, not modelled); strftime/datetime.timezone are CPython's. The coercion is the code's "
+        "(bool('OFF') is True for a QUOTED 'OFF'): recorded as an observation in the evidence, the property fixes no coercion function.",
+   technique="Coq proof (invariants by induction over statement histories, pointwise restore argument for hints) + translator facts + vm_compute correspondence"),
  "C16": dict(
    text="Coq theorems: the regular expression built from a LIKE pattern (Model/Like.v, a regex AST with a denotational match "
         "relation) matches exactly the strings SQL LIKE matches, for every pattern and string, and a pattern without wildcards matches "
